@@ -107,3 +107,121 @@ def public_coords(part, axis):
         return None
     return [("e", int(e), int(e)) if int(e) >= 0 else ("s", int(e), int(e))
             for e in order.value]
+
+
+# ------------------------------------------------------------------ intrinsic relations (W3)
+
+
+RULE_SUFFIX = (
+    " Plus W3: every parseable cube response under tests/fixtures (about 270 real payloads: "
+    "scorecards, fused variables, derived items, numeric arrays, 3-D cubes) with random legal "
+    "transforms (hide / prune / order, subtotal and difference insertions on categorical "
+    "dimensions, pairwise settings), read under the intrinsic relations of this property "
+    "(vlib/intrinsic.py) - relations among the library's own outputs that need no ground "
+    "truth; half of the quick-tier cases carry no transforms at all.")
+TECHNIQUE_SUFFIX = "; intrinsic relations among public outputs on the repository's fixture corpus"
+INSERTABLE = ("CAT", "CA_CAT", "CAT_DATE")
+ALPHAS = [None, [0.05], [0.05, 0.2], [0.4, 0.01], [0.1]]
+
+
+def random_full_transforms(g, response):
+    """Display transforms plus insertions on categorical dimensions and pairwise settings."""
+    from cr.cube.cube import Cube
+    from . import gen
+
+    tr = random_display_transforms(g, response) if g.chance(0.6) else {}
+    cube = Cube(json.loads(json.dumps(response)))
+    dims = cube.dimensions
+    nd = len(dims)
+    if nd:
+        targets = [("rows_dimension", dims[0])] if nd == 1 else [
+            ("rows_dimension", dims[-2]), ("columns_dimension", dims[-1])]
+        for key, dim in targets:
+            if dim.dimension_type.name not in INSERTABLE or not g.chance(0.6):
+                continue
+            valid = [int(e) for e in dim.valid_elements.element_ids]
+            missing = [int(e.element_id) for e in dim.all_elements if e.missing]
+            if not valid:
+                continue
+            tr.setdefault(key, {})["insertions"] = gen.gen_insertions(
+                g, valid, missing, hide_some=False, disjoint=True)
+    alpha = g.pick(ALPHAS)
+    pw = {}
+    if alpha is not None:
+        pw["alpha"] = alpha
+    ol = g.pick([None, True, False])
+    if ol is not None:
+        pw["only_larger"] = ol
+    if pw:
+        tr["pairwise_indices"] = pw
+    return tr
+
+
+def units(tier, seed, reps=None):
+    reps = reps if reps is not None else (1 if tier == "quick" else 12)
+    n = len(fixture_paths())
+    return [{"corpus": k, "rep": rep, "seed": seed} for rep in range(reps) for k in range(n)]
+
+
+def make_case(pid, unit):
+    from . import gen
+
+    rel = fixture_paths()[unit["corpus"]]
+    g = gen.G("%s/corpus/%s/%s/%s" % (pid, unit["seed"], unit["corpus"], unit["rep"]))
+    plain = unit["rep"] == 0 and unit["corpus"] % 2 == 0
+    return {"fixture": rel, "transforms": {} if plain else random_full_transforms(g, load(rel)),
+            "population": 1000, "indices_first": g.chance(0.5)}
+
+
+def _pairwise_ctx(tr):
+    v = (tr.get("pairwise_indices") or {}).get("alpha")
+    if not v:
+        a1, a2 = 0.05, None
+    elif isinstance(v, float):
+        a1, a2 = v, None
+    elif len(v) == 1:
+        a1, a2 = v[0], None
+    else:
+        a1, a2 = tuple(sorted(v[:2]))
+    ol = (tr.get("pairwise_indices") or {}).get("only_larger", True) is not False
+    return a1, a2, ol
+
+
+def check_case(pid, case):
+    """Intrinsic relations of property `pid` on every partition of a fixture cube."""
+    import copy
+
+    from cr.cube.cube import Cube
+    from . import intrinsic
+    from .harness import CaseResult
+    from .probe import read
+
+    res = CaseResult()
+    res.classes.append("corpus")
+    resp = load(case["fixture"])
+    tr = case.get("transforms") or {}
+    res.descriptor = {"fixture": case["fixture"], "transforms": tr}
+    cube = Cube(json.loads(json.dumps(resp)), transforms=copy.deepcopy(tr),
+                population=case.get("population"))
+    parts = read(cube, "partitions")
+    if not parts.ok:
+        base = read(Cube(json.loads(json.dumps(resp))), "partitions")
+        if base.ok:
+            # only the transformed cube fails: C05's corpus monitor owns that question
+            res.observations["corpus partitions raise only with transforms: %s" %
+                             parts.exc_name] += 1
+        res.skipped["corpus_partitions_unreadable"] += 1
+        return res
+    a1, a2, ol = _pairwise_ctx(tr)
+    display = any((tr.get(k) or {}).get(x) for k in ("rows_dimension", "columns_dimension")
+                  for x in ("elements", "prune"))
+    ctx = {"population": case.get("population"), "alpha": a1, "alpha_alt": a2,
+           "only_larger": ol, "indices_first": case.get("indices_first"),
+           "display_transforms": display}
+    before = res.comparisons
+    for part in parts.value:
+        intrinsic.run(pid, res, part, ctx)
+    res.nontrivial = res.comparisons > before
+    if tr:
+        res.classes.append("corpus_transformed")
+    return res
